@@ -20,8 +20,35 @@ use serde_json::{json, Map, Value as J};
 
 #[derive(Debug, Clone)]
 pub enum Sel {
-    Field { key: String, name: String, sub: Option<Vec<Sel>> },
+    Field { key: String, name: String, args: Vec<(String, Arg)>, sub: Option<Vec<Sel>> },
     Frag { ty: String, sub: Vec<Sel> },
+}
+
+/// an argument value as written in the operation text
+#[derive(Debug, Clone)]
+pub enum Arg {
+    Var(String),
+    Lit(J),
+    Obj(Vec<(String, Arg)>),
+    List(Vec<Arg>),
+}
+
+impl Arg {
+    /// the value the server sees (an absent variable is null)
+    pub fn eval(&self, vars: &Map<String, J>) -> J {
+        match self {
+            Arg::Var(n) => vars.get(n).cloned().unwrap_or(J::Null),
+            Arg::Lit(j) => j.clone(),
+            Arg::Obj(fs) => {
+                let mut m = Map::new();
+                for (k, v) in fs {
+                    m.insert(k.clone(), v.eval(vars));
+                }
+                J::Object(m)
+            }
+            Arg::List(xs) => J::Array(xs.iter().map(|x| x.eval(vars)).collect()),
+        }
+    }
 }
 
 #[derive(Debug)]
@@ -128,6 +155,41 @@ impl P {
             Some(base)
         }
     }
+    fn arg(&mut self) -> Option<Arg> {
+        let t = self.next()?;
+        Some(match t.as_str() {
+            "$" => Arg::Var(self.next()?),
+            "{" => {
+                let mut fs = vec![];
+                while self.peek()? != "}" {
+                    let n = self.next()?;
+                    self.eat(":")?;
+                    fs.push((n, self.arg()?));
+                }
+                self.i += 1;
+                Arg::Obj(fs)
+            }
+            "[" => {
+                let mut xs = vec![];
+                while self.peek()? != "]" {
+                    xs.push(self.arg()?);
+                }
+                self.i += 1;
+                Arg::List(xs)
+            }
+            "true" => Arg::Lit(J::Bool(true)),
+            "false" => Arg::Lit(J::Bool(false)),
+            "null" => Arg::Lit(J::Null),
+            _ if t.starts_with('"') => Arg::Lit(J::String(t[1..].to_string())),
+            _ => match t.parse::<i64>() {
+                Ok(i) => Arg::Lit(json!(i)),
+                Err(_) => match t.parse::<f64>() {
+                    Ok(f) => Arg::Lit(json!(f)),
+                    Err(_) => Arg::Lit(J::String(format!("enum:{t}"))),
+                },
+            },
+        })
+    }
     fn selset(&mut self) -> Option<Vec<Sel>> {
         self.eat("{")?;
         let mut out = vec![];
@@ -154,11 +216,18 @@ impl P {
                     } else {
                         (first.clone(), first)
                     };
+                    let mut args = vec![];
                     if self.peek() == Some("(") {
-                        self.skip_balanced("(", ")")?;
+                        self.i += 1;
+                        while self.peek()? != ")" {
+                            let n = self.next()?;
+                            self.eat(":")?;
+                            args.push((n, self.arg()?));
+                        }
+                        self.i += 1;
                     }
                     let sub = if self.peek() == Some("{") { Some(self.selset()?) } else { None };
-                    out.push(Sel::Field { key, name, sub });
+                    out.push(Sel::Field { key, name, args, sub });
                 }
             }
         }
@@ -215,7 +284,17 @@ struct Gen<'a> {
     r: Rng,
     shape: Shape,
     counter: usize,
-    ids: Vec<(String, String)>, // (typename, id) handed out so far
+    vars: Map<String, J>,
+}
+
+/// one field of a collected selection set: response keys that ask for the same field with the same
+/// (evaluated) arguments get ONE value — a server answers the same question the same way, and the
+/// store keeps one value per field + arguments
+struct Collected {
+    keys: Vec<String>,
+    name: String,
+    args_key: String,
+    sub: Option<Vec<Sel>>,
 }
 
 impl<'a> Gen<'a> {
@@ -252,17 +331,26 @@ impl<'a> Gen<'a> {
         }
     }
 
-    /// CollectFields: (response key, field name, merged sub-selections) in order of first appearance
-    fn collect(&self, concrete: &str, sels: &[Sel], out: &mut Vec<(String, String, Option<Vec<Sel>>)>) {
+    /// CollectFields, grouped by field name + evaluated arguments, in order of first appearance
+    fn collect(&self, concrete: &str, sels: &[Sel], out: &mut Vec<Collected>) {
         for s in sels {
             match s {
-                Sel::Field { key, name, sub } => {
-                    if let Some(e) = out.iter_mut().find(|e| &e.0 == key) {
-                        if let (Some(a), Some(b)) = (e.2.as_mut(), sub.as_ref()) {
+                Sel::Field { key, name, args, sub } => {
+                    let mut evaluated = Map::new();
+                    for (k, v) in args {
+                        evaluated.insert(k.clone(), v.eval(&self.vars));
+                    }
+                    // serde_json's Map is sorted by key (no `preserve_order`), so this is canonical
+                    let args_key = serde_json::to_string(&J::Object(evaluated)).unwrap_or_default();
+                    if let Some(e) = out.iter_mut().find(|e| &e.name == name && e.args_key == args_key) {
+                        if !e.keys.contains(key) {
+                            e.keys.push(key.clone());
+                        }
+                        if let (Some(a), Some(b)) = (e.sub.as_mut(), sub.as_ref()) {
                             a.extend(b.iter().cloned());
                         }
                     } else {
-                        out.push((key.clone(), name.clone(), sub.clone()));
+                        out.push(Collected { keys: vec![key.clone()], name: name.clone(), args_key, sub: sub.clone() });
                     }
                 }
                 Sel::Frag { ty, sub } => {
@@ -323,18 +411,12 @@ impl<'a> Gen<'a> {
         let mut fields = vec![];
         self.collect(&concrete, sels, &mut fields);
         let tdef = self.schema.get(&concrete);
-        // identity: a fresh id, sometimes (random shapes) one that was already handed out for this type
         let id: String = {
-            let reuse: Vec<String> = self.ids.iter().filter(|(t, _)| *t == concrete).map(|(_, i)| i.clone()).collect();
-            if self.shape == Shape::Random && !reuse.is_empty() && self.r.below(100) < 12 {
-                reuse[self.r.below(reuse.len())].clone()
-            } else {
-                let k = self.fresh();
-                format!("{concrete}_{k}")
-            }
+            let k = self.fresh();
+            format!("{concrete}_{k}")
         };
         let mut obj = Map::new();
-        for (key, name, sub) in fields {
+        for Collected { keys, name, sub, .. } in fields {
             let v = if name == "__typename" {
                 json!(concrete.clone())
             } else {
@@ -343,7 +425,6 @@ impl<'a> Gen<'a> {
                     None => J::Null, // not a field of this type: the query is invalid; give nothing
                     Some(fd) => {
                         if name == "id" && fd.ty.inner() == "ID" && !fd.ty.is_list() {
-                            self.ids.push((concrete.clone(), id.clone()));
                             json!(id.clone())
                         } else {
                             self.value(&fd.ty, sub.as_deref(), depth)
@@ -351,7 +432,9 @@ impl<'a> Gen<'a> {
                     }
                 }
             };
-            obj.insert(key, v);
+            for key in keys {
+                obj.insert(key, v.clone());
+            }
         }
         J::Object(obj)
     }
@@ -481,7 +564,7 @@ pub fn c10_answer(c: &mut Current, values: &J, rt: &mut Node, f: &[&str]) -> Str
         "sparse" => Shape::Sparse,
         _ => Shape::Random,
     };
-    let mut g = Gen { schema: &project.schema, r: Rng::new(seed, 77), shape, counter: 0, ids: vec![] };
+    let mut g = Gen { schema: &project.schema, r: Rng::new(seed, 77), shape, counter: 0, vars: Map::new() };
     let mut vars = Map::new();
     for (n, t) in &op.vars {
         if t.is_nullable() && shape == Shape::Sparse && g.r.below(2) == 0 {
@@ -494,6 +577,7 @@ pub fn c10_answer(c: &mut Current, values: &J, rt: &mut Node, f: &[&str]) -> Str
         let v = g.input(t, 0);
         vars.insert(n.clone(), v);
     }
+    g.vars = vars.clone();
     let response = g.object(root, &op.sel, 0);
     let mut pointers = Map::new();
     for (t, fld, to) in &c.pointers {
